@@ -74,7 +74,38 @@ macro_rules! impl_parse {
                 loop {
                     let key: syn::Ident = $input.call(syn::ext::IdentExt::parse_any)?;
                     match &*key.to_string() {
-                        $($k => $e,)*
+                        // A supported key may be written in a form we do not support, e.g.
+                        // `rename(serialize = "..")` or `bound(serialize = "..")`. Parse its value
+                        // speculatively: on failure only this key is skipped (like an unknown
+                        // key), instead of discarding the whole `#[serde(..)]` attribute
+                        // together with the supported attributes next to it.
+                        $($k => {
+                            use syn::parse::discouraged::Speculative;
+
+                            let fork = $input.fork();
+                            let parsed: syn::Result<()> = (|| {
+                                let $input = &fork;
+                                let _ = $input; // keys without a value do not read it
+                                $e;
+                                Ok(())
+                            })();
+                            match parsed {
+                                Ok(()) if fork.is_empty() || fork.peek(syn::Token![,]) => {
+                                    $input.advance_to(&fork)
+                                }
+                                _ => {
+                                    let tokens = crate::attr::skip_until_next_comma($input);
+                                    if cfg!(not(feature = "no-serde-warnings")) {
+                                        crate::utils::warning::print_warning(
+                                            "failed to parse serde attribute",
+                                            format!("{key} {tokens}"),
+                                            "ts-rs failed to parse this attribute. It will be ignored.",
+                                        )
+                                        .unwrap();
+                                    }
+                                }
+                            }
+                        },)*
                         #[allow(unreachable_patterns)]
                         x => {
                             if cfg!(not(feature = "no-serde-warnings")) {
